@@ -390,7 +390,7 @@ def valid_case(case):
     try:
         to_py(case["value"])
         return case["cls"] in CTXS and case["pos"] in POSITIONS
-    except Exception:
+    except (Exception, HarnessError):
         return False
 
 
